@@ -331,11 +331,14 @@ func (sr *StatusReport) UnmarshalCbor(r io.Reader) error {
 	if n, err := cboring.ReadArrayLength(r); err != nil {
 		return err
 	} else {
-		sr.StatusInformation = make([]BundleStatusItem, int(n))
-	}
-	for i := 0; i < len(sr.StatusInformation); i++ {
-		if err := cboring.Unmarshal(&sr.StatusInformation[i], r); err != nil {
-			return fmt.Errorf("Unmarshalling BundleStatusItem failed: %v", err)
+		// Do not allocate based on the announced length, which might be arbitrarily large. Grow with the read items.
+		sr.StatusInformation = nil
+		for i := uint64(0); i < n; i++ {
+			var item BundleStatusItem
+			if err := cboring.Unmarshal(&item, r); err != nil {
+				return fmt.Errorf("Unmarshalling BundleStatusItem failed: %v", err)
+			}
+			sr.StatusInformation = append(sr.StatusInformation, item)
 		}
 	}
 
